@@ -35,6 +35,10 @@ ASSUMPTIONS = ["coding sequences are valid Unicode text (any characters: letters
                "int(NaN) is platform-defined in Go: the result of a compromise with an amino acid of total weight 0, and what is "
                "added / compromised / serialised / observed from it, is compared up to the code of the table only (taint tracked "
                "per handle and per cell; class suffix /nan); every other step of the same history is compared exactly",
+               "outside the property (drift only, class suffix /ood, taint level 2 tracked per handle and per cell): the table "
+               "returned for an id that is not one of the 25 NCBI ids; add / compromise of tables that are not non-empty, "
+               "well-formed and over the same code (C18's domain); everything computed from such a table, including its "
+               "re-weighting. Steps on untainted handles of the same history are judged exactly",
                "add / compromise steps inside a history are judged for SHARING only: the value-semantics spec uses the model's "
                "addTable / compromise (their own spec is C18); a wrong sum inside a history shows as a correspondence DIFF"]
 PARTIAL = ["'a freshly requested default table always carries the pristine NCBI assignments with uniform weight 1' and "
